@@ -47,13 +47,24 @@ def parse_names(verb, raw):
     return names
 
 
-def digest(rig):
-    """white-box digest of the (single) live connection; degrades to () on refactors"""
+def connection_of(rig, i=0):
+    """the server's Connection object that belongs to scripted session i (white box; None if not found)"""
     try:
-        conns = list(rig.server.connections.values())
-        if not conns:
+        mine = rig.sessions[i].ctl.t
+        for c in rig.server.connections.values():
+            if c.command_connection.writer.transport.peer is mine:
+                return c
+    except Exception:
+        pass
+    return None
+
+
+def digest(rig):
+    """white-box digest of session 0's live connection; degrades to () on refactors"""
+    try:
+        c = connection_of(rig, 0)
+        if c is None:
             return ("no-connection",)
-        c = conns[0]
         out = []
         for name in ("current_directory", "rename_from", "restart_offset", "transfer_type", "logged"):
             f = c.get(name) if name in c else None
@@ -141,9 +152,8 @@ def step(rig, model, line, conf, i=0):
         problems.append({"kind": "session-ended" if s.closed() else "session-not-ended", "line": line, "codes": codes})
     # white-box extras (skipped silently if the attributes disappear in a refactor)
     try:
-        conns = list(rig.server.connections.values())
-        if conns and not s.closed() and model.user is not None:
-            c = conns[0]
+        c = connection_of(rig, i)
+        if c is not None and not s.closed() and model.user is not None:
             if "current_directory" in c and c["current_directory"].done():
                 if str(c.current_directory) != model.cwd:
                     problems.append({"kind": "cwd-state", "line": line, "got": str(c.current_directory),
